@@ -56,6 +56,7 @@ HARNESSES = [
     H('k_getters_string_array', 'kani_header.rs', ['C05'], bounded='headers of 3 entries', timeout=900, doc='get_entry_data_as_string_array (StringArray or I18NString)'),
     H('k_getters_u32', 'kani_header.rs', ['C05'], bounded='headers of 3 entries', timeout=900, doc='get_entry_data_as_u32: first element; Err on empty array or other type'),
     H('k_getters_u64', 'kani_header.rs', ['C05'], bounded='headers of 3 entries', timeout=900, doc='get_entry_data_as_u64'),
+    H('k_entry_is_present', 'kani_header.rs', ['C05'], bounded='headers of 3 entries', timeout=900, doc='entry_is_present: true iff some entry carries the tag'),
     H('k_getters_i18n', 'kani_header.rs', ['C05', 'C04'], bounded='headers of 3 entries', timeout=900, doc='get_entry_data_as_i18n_string: first locale; Err (not panic) on an empty table'),
     H('k_digest_algo', 'kani_constants.rs', ['C03'], doc='all u32: DigestAlgorithm::from_u32 equals the 7-value map of the Verus prelude'),
     H('k_tag_values', 'kani_constants.rs', ['C03', 'C02', 'C05'], doc='numeric values of the tags named in the Verus prelude'),
